@@ -487,7 +487,12 @@ var LogFunc = function.New(&function.Spec{
 			return cty.UnknownVal(cty.String), err
 		}
 
-		return cty.NumberFloatVal(math.Log(num) / math.Log(base)), nil
+		result := math.Log(num) / math.Log(base)
+		if math.IsNaN(result) {
+			// e.g. a negative number or base, or both logarithms zero or infinite
+			return cty.NilVal, fmt.Errorf("the logarithm of %s in base %s is not a number", args[0].AsBigFloat().Text('g', 10), args[1].AsBigFloat().Text('g', 10))
+		}
+		return cty.NumberFloatVal(result), nil
 	},
 })
 
